@@ -199,7 +199,13 @@ def handleRun (args : List String) : String :=
       | .panic p => "panic:" ++ hexString p
       | .fuel => "fuel"
     let fsd := match out.final with | some σ => fsDump σ.world.fs | none => ""
-    s!"{status} {hexStr out.output} fs={fsd}"
+    -- a list that (now) contains itself: excluded by the properties, and the implementation would not terminate
+    -- when it displays or debug-formats it
+    let cyclic := match out.final with
+      | some σ => (List.range σ.heap.length).any fun a => (displayV σ.heap (σ.heap.length + 1) (.list a)).isNone &&
+          (match σ.heap[a]? with | some (.list _) => true | _ => false)
+      | none => false
+    s!"{status} {hexStr out.output} fs={fsd} cyclic={cyclic}"
   | _ => "bad-request"
 
 def handle (line : String) : String :=
